@@ -91,8 +91,8 @@ Proof.
   - cbn [fold_left] in H. destruct (commit_one fixed efb now (t, q) r) as [t1 q1] eqn:E1.
     assert (Q : q1 = q).
     { unfold commit_one in E1. destruct (t_fresh_id t) as [t0 id]. rewrite (A r (or_introl eq_refl)) in E1. cbn [negb andb] in E1.
-      match type of E1 with (let '(t2, wrote) := ?X in _) = _ => destruct X as [t2 wrote] end.
-      injection E1 as X1 X2. symmetry. exact X2. }
+      destruct (t_cas t0 (r_rev r) (with_status (r_obj r) Done id)) as [t'0 c].
+      destruct c as [| |cur cr]; [| |destruct (fallback_ok efb cur r)]; injection E1 as X1 X2; symmetry; exact X2. }
     subst q1. apply (IH t1 q t' q'); [intros x Hx; apply A; right; exact Hx|exact H].
 Qed.
 
